@@ -57,14 +57,14 @@ theorem actorAt_of_get {w : World} {a : Aid} {x : Actor} (h : w.actors[a]? = som
 theorem pop_sys_steps (w : World) (a : Aid) (x : Actor) (m : SMsg × Option Aid) (rest : List (SMsg × Option Aid))
     (hx : actorAt w a = x) (hq : x.sysQ = m :: rest) (st : Status) (hst : x.status = st) (_ha : a < nA w) :
     GS w a st { w with actors := w.actors.modify a fun x => { x with sysQ := rest } } := by
-  refine ⟨Steps.single (Prim.upd w a _ rfl rfl rfl (by simp) ?_ (fun _ h => h) rfl), ?_⟩
+  refine ⟨Steps.single (Prim.upd w a _ rfl rfl rfl (by simp) ?_ (fun _ h => h) rfl rfl rfl id), ?_⟩
   · intro e he; rw [hx, hq]; exact List.mem_cons_of_mem _ he
   · rw [status_mod_keep _ _ _ _ rfl, hx]; exact hst
 
 theorem pop_usr_steps (w : World) (a : Aid) (x : Actor) (m : UMsg × Option Aid) (rest : List (UMsg × Option Aid))
     (hx : actorAt w a = x) (hq : x.userQ = m :: rest) (st : Status) (hst : x.status = st) (_ha : a < nA w) :
     GS w a st { w with actors := w.actors.modify a fun x => { x with userQ := rest } } := by
-  refine ⟨Steps.single (Prim.upd w a _ rfl rfl rfl (by simp) (fun _ h => h) ?_ rfl), ?_⟩
+  refine ⟨Steps.single (Prim.upd w a _ rfl rfl rfl (by simp) (fun _ h => h) ?_ rfl rfl rfl id), ?_⟩
   · intro e he; rw [hx, hq]; exact List.mem_cons_of_mem _ he
   · rw [status_mod_keep _ _ _ _ rfl, hx]; exact hst
 
@@ -96,8 +96,14 @@ theorem runOne_steps (w : World) (hJ : J w) (hB : ∀ b ∈ w.behs, BehOK b) (a 
             intro who hm hb
             subst hm
             exact (hJ hb).msg a ha who s (by rw [hax, hq]; exact List.mem_cons_self)
+          have hns : ∀ who, m = .terminated who → nA w ≤ ghostBase → who ≠ a := by
+            intro who hm hb heq
+            subst heq
+            rcases hmsg who hm hb with ⟨_, hd⟩ | hg
+            · rw [hax] at hd; exact hne hd
+            · exact absurd (Nat.lt_of_lt_of_le ha hb) (Nat.not_lt.mpr hg)
           apply guarded_steps w hJ a ha (sysTurn a m s) (GS w a x.status)
-            (sysTurn_steps hJ a x.status hB ha m s hne hsnd hmsg)
+            (sysTurn_steps hJ a x.status hB ha m s hne hsnd hmsg hns)
           exact pop_sys_steps w a x (m, s) rest hax hq x.status rfl ha
       | nil =>
         simp only
